@@ -578,3 +578,41 @@ Theorem C12_model_uses_source_constants :
   (forall g t, end_crowded g t = (nth 6 src_cmp_stereogenic_cumulenes 0 <? zlen (filter (fun mb => negb (b_ord (snd mb) =? nth 7 src_cmp_stereogenic_cumulenes 0)) (nbrs g t)))).
 Proof. exact model_uses_source_constants. Qed.
 Print Assumptions C12_model_uses_source_constants.
+
+(* ALL molecules: exactly which tetrahedrons are chiral (before labelled ones are removed): (a) distinct neighbour classes, or (b) a
+   linker of two rings that are BOTH unsymmetric about it, or (c) a stereogenic tetrahedron that stays in the axes graph *)
+Theorem C12_chiral_tetrahedrons_spec : forall g r ar (w : Z -> Z) s, final_state g r ar w = Ok s -> forall n,
+  In n (c_t s) <->
+    (exists env, In (n, env) (r_sg_th r) /\ distinct_classes w env = true) \/
+    (exists n1 n2 m1 m2, In (n, (n1, n2, m1, m2)) (rl_th r ar) /\ w n1 <> w n2 /\ w m1 <> w m2) \/
+    ((1 <? Z.of_nat (List.length (c_graph (pre_graph_state g r ar w)))) = true /\ In n (keys (c_graph s)) /\ In n (keys (r_sg_th r))).
+Proof. exact chiral_tetrahedrons_spec. Qed.
+Print Assumptions C12_chiral_tetrahedrons_spec.
+
+(* labels are kept only on registered (stereogenic) centres: after fix_stereo, for EVERY molecule and EVERY chirality function *)
+Theorem C12_fix_stereo_only_registered : forall (chiral : list label -> centre -> bool) r g cs,
+  In cs (fix_stereo_labels chiral r g) ->
+  In cs (collect r g) /\
+  match fst cs with
+  | CT n => In n (keys (r_sg_th r))
+  | CA n => In n (keys (r_sg_al r))
+  | CC a b => exists n, zget (r_ct_terminals r) n = Some (a, b)
+  end.
+Proof. exact fix_stereo_only_registered. Qed.
+Print Assumptions C12_fix_stereo_only_registered.
+
+Theorem C12_chiral_spiro_example :
+  exists r, registries_real ex_spiro = Ok r /\ rl_th r ex_spiro_ar = [(3, (2, 1, 6, 4))] /\
+    chiral_centres ex_spiro r ex_spiro_ar ex_spiro_w = Ok [] /\
+    chiral_centres ex_spiro r ex_spiro_ar (fun x => x) = Ok [CT 3].
+Proof. exact chiral_spiro_example. Qed.
+Print Assumptions C12_chiral_spiro_example.
+
+(* no rings: the chiral centres of the renumbered molecule (classes carried along) are the renumbered chiral centres *)
+Theorem C12_acyclic_chiral_equivariant : forall (s : Z -> Z), (forall x y, s x = s y -> x = y) ->
+  forall r (w w' : Z -> Z), (forall x, w' (s x) = w x) -> len2 (r_sg_cum r) ->
+  (forall n, In (s n) (c_t (acyclic_state (rn_reg s r) w')) <-> In n (c_t (acyclic_state r w))) /\
+  (forall n, In (s n) (c_c (acyclic_state (rn_reg s r) w')) <-> In n (c_c (acyclic_state r w))) /\
+  (forall c, In (s c) (c_a (acyclic_state (rn_reg s r) w')) <-> In c (c_a (acyclic_state r w))).
+Proof. exact acyclic_chiral_equivariant. Qed.
+Print Assumptions C12_acyclic_chiral_equivariant.
